@@ -61,7 +61,7 @@ TEXTS = {
     "C18": dict(
         text="Proved for the model of FuncAction.Exec (through which every action and guard runs), for every wrapped behaviour: each "
              "permanent binding present beforehand is present with its previous value in the returned bindings; a failing action keeps "
-             "the state's bindings under the error bindings; a rejecting guard has no effect. The oracle checks the same on the states "
+             "the state's bindings under the error bindings; a rejecting guard has no effect; what an accepting guard hands on keeps the permanent bindings of the candidate it was run on; and over a history - any chain of completing executions, each given what the previous one returned - a permanent binding of the first state is present with its first value at the end (C18_history_keeps, by induction on the chain). The oracle checks the same on the states "
              "the Go code produces for generated deleting/overwriting/replacing actions and guards.",
         note=ENGINE_NOTE + " The sigil and the default of the switch are generated from the source and computed with in the proofs."),
 }
